@@ -125,6 +125,65 @@ func runRoundScenarios(c *ctx, t *hx.Trace, abs hx.Abs, newEnv func(string, map[
 		closeEnv(r)
 	}
 
+	// ---- overlapping rounds: round r1 is held after its first pick (a slow server); meanwhile round r2
+	// learns bans from the GCA; r1 then goes on with its remaining attempts
+	nover := 6
+	if c.tier == "thorough" {
+		nover = 40
+	}
+	if !c.part("fault") {
+		nover = 0
+	}
+	for i := 0; i < nover; i++ {
+		n := 3 + rng.Intn(3)
+		servers := map[string]bool{}
+		var names []string
+		for k := 1; k <= n; k++ {
+			names = append(names, fmt.Sprintf("f%d", k))
+			servers[names[k-1]] = false
+		}
+		r, err := newEnv(fmt.Sprintf("rounds/overlap/%d", i), servers)
+		if err != nil {
+			return err
+		}
+		for _, k := range names {
+			setMode(r, k, "refuse")
+		}
+		r.mu.Lock()
+		r.parkAt = "r1"
+		r.mu.Unlock()
+		resA := r.roundAs("r1")
+		select {
+		case <-r.parked:
+		case <-time.After(10 * time.Second):
+			return fmt.Errorf("round r1 did not reach the yield point after its pick")
+		}
+		r.mu.Lock()
+		x := r.lastPick["r1"]
+		r.mu.Unlock()
+		// every server other than the one r1 is waiting for now answers with a GCA-signed list of bans
+		banAll := i%3 == 2
+		for _, y := range names {
+			if y == x {
+				continue
+			}
+			var list []hx.RawServer
+			for _, z := range names {
+				if banAll || (z != x && z != y) {
+					list = append(list, r.entry(z, true, 1, "gca"))
+				}
+			}
+			r.serve(y, "reply", r.build(y, replySpec{servers: list}))
+		}
+		t.Emit(hx.J{"a": "DriverNote", "note": "r1 waits for " + x + "; r2 runs"})
+		<-r.roundAs("r2")
+		t.Emit(hx.J{"a": "DriverNote", "note": "r1 continues"})
+		r.unpark <- struct{}{}
+		<-resA
+		t.Emit(hx.J{"a": "LoopProbe", "ok": r.cli.Iterate()})
+		closeEnv(r)
+	}
+
 	// ---- C17: lists and migration orders
 	if c.part("lists") {
 		r, err := newEnv("rounds/lists", map[string]bool{"f1": false, "f2": false, "f3": true})
